@@ -132,7 +132,7 @@ func (z *Decimal) scan(r io.ByteScanner, base int) (f *Decimal, b int, err error
 	// exp2 != 0
 
 	// // apply 2**exp2
-	p := new(Decimal).SetPrec(z.Prec() + _DW) // use more bits for p -- TODO(db47h) what is the right number?
+	p := new(Decimal).SetPrec(z.workPrec()) // use more bits for p -- TODO(db47h) what is the right number?
 	if exp2 < 0 {
 		z.Quo(z, p.pow2(uint64(-exp2)))
 	} else {
@@ -140,6 +140,17 @@ func (z *Decimal) scan(r io.ByteScanner, base int) (f *Decimal, b int, err error
 	}
 
 	return
+}
+
+// workPrec returns z's precision plus one word of extra digits, at most
+// MaxPrec. The sum is formed in 64 bits: where uint has 32 bits, z.Prec()+_DW
+// wraps around for precisions close to MaxPrec.
+func (z *Decimal) workPrec() uint {
+	p := uint64(z.prec) + _DW
+	if p > MaxPrec {
+		p = MaxPrec
+	}
+	return uint(p)
 }
 
 // pow2 sets z to 2**n and returns z.
@@ -156,7 +167,7 @@ func (z *Decimal) pow2(n uint64) *Decimal {
 
 	// use more bits for f than for z
 	// TODO(db47h) what is the right number?
-	f := new(Decimal).SetPrec(z.Prec() + _DW).SetUint64(2)
+	f := new(Decimal).SetPrec(z.workPrec()).SetUint64(2)
 
 	for n > 0 {
 		if n&1 != 0 {
